@@ -4,7 +4,7 @@ from . import ipgen, ipref, linegen, textgen
 from .textcommon import TEXT_MODEL_DEPS as MODEL_DEPS, TEXT_TRUSTED as TRUSTED_BASE, TEXT_ASSUMPTIONS as ASSUMPTIONS  # noqa
 
 COQ_DEPS = ["lib/Str.v", "lib/Rx.v", "lib/RxFacts.v", "lib/RxSub.v", "gen/G_rx.v", "gen/G_text_consts.v", "model/TextModel.v", "model/TextProofs.v", "model/TextProofs2.v", "lib/RxSubFacts.v"]
-RULE = ("texts of ordinary vocabulary with sensitive items at known positions (secrets from the template corpus, addresses, listed words and AS numbers), blank / whitespace-only lines, tabs, form feeds, CRLF, "
+RULE = ("texts of ordinary vocabulary with sensitive items at known positions (secrets from the template corpus, addresses, listed words and AS numbers), blank / whitespace-only lines, lines made only of quote or bracket characters, tabs, form feeds, CRLF, "
         "no final newline; all 32 feature subsets; oracle: line count, leading/trailing whitespace + terminator per line, non-sensitive tokens verbatim and in order, inner whitespace identical unless secrets/words are on, "
         "each output line equal to the output of the same line processed alone with the same earlier secrets; non-trivial = a distinct (line, feature subset) pair with at least one sensitive item")
 
@@ -20,6 +20,9 @@ def build_text(rng, n):
         k = rng.randrange(10)
         if k == 0:
             out.append((rng.choice(["\n", "  \n", "\t\n", " \x0c \n", "\r\n", "   \r\n"]), {}))
+            continue
+        if k == 9 and rng.random() < 0.5:   # a line made only of quote / bracket characters (the closing quote of a multi-line banner): nothing to take apart
+            out.append((rng.choice(["", " ", "\t"]) + rng.choice(["\"", "''", "\\\"", "\"\"\"", "'\"'", "\" \"", "[", "{ }", "\";", "';"]) + rng.choice(["", " "]) + rng.choice(["\n", "\r\n"]), {}))
             continue
         toks = [rng.choice(linegen.ORDINARY) for _ in range(rng.randrange(1, 6))]
         sens = {}
